@@ -45,14 +45,18 @@ class StepFS(FakeFS):
         self.budget = None          # crash budget
         self.steps = 0              # steps executed so far
         self.crashed = False
+        self.moved = {}             # old name -> new name of files renamed while possibly still open
         self.dead = False
         self.rmtree_reverse = False
+        self.buffered = False       # True: pickle.dump only fills the handle's buffer, the chunks reach the file
+        #                             when the handle is closed (small files); False: during dump (large files)
         # timeline mode
         self.tl = None              # path -> list of successive FState|None
         self.pos = None
         self.deltas = None
         self.force_progress = False
         self.recording = None       # list collecting (path, FState|None) while a writer is recorded
+        self.oprec = None           # list collecting the writer's operations (for merged re-execution)
 
     # ------------------------------------------------------------ step accounting
     def _step(self, path=None, st=None):
@@ -92,13 +96,24 @@ class StepFS(FakeFS):
         p = self._norm(p)
         if posixpath.dirname(p) not in self.dirs:
             raise FileNotFoundError(p)
+        if self.oprec is not None:
+            self.oprec.append(("create", p))
         self._set(p, FState(None, 0, 0))
 
     def write_chunks(self, p, obj):
         p = self._norm(p)
         for k in range(1, self.K + 1):
+            if self.oprec is not None:
+                self.oprec.append(("chunk", p, obj, k))
             if p not in self.files:
-                raise HarnessError("write to a file that was removed while open is not modelled")
+                # the name was moved / removed while the handle was open: the bytes go to the open file,
+                # wherever its name is now; a rename target keeps receiving them
+                tgt = self.moved.get(p)
+                if tgt is None or tgt not in self.files:
+                    self._step()
+                    continue
+                self._set(tgt, FState(obj, k, self.K))
+                continue
             self._set(p, FState(obj, k, self.K))
 
     def remove(self, p):
@@ -122,9 +137,12 @@ class StepFS(FakeFS):
         if b in self.dirs:
             raise IsADirectoryError(b)
         st = self.files[a]
+        if self.oprec is not None:
+            self.oprec.append(("replace", a, b))
         self._step(None, None)
         del self.files[a]
         self.files[b] = st
+        self.moved[a] = b
         if self.recording is not None:
             self.recording.append((a, None))
             self.recording.append((b, st))
@@ -225,6 +243,81 @@ class StepFS(FakeFS):
         log, self.recording = self.recording, None
         return log
 
+    def start_op_recording(self):
+        self.oprec = []
+
+    def stop_op_recording(self):
+        ops, self.oprec = self.oprec, None
+        return ops
+
+    def merged_logs(self, base_files, oplists, order):
+        """Re-execute several writers' operation lists in the global order `order` (a list of writer
+        indices) with POSIX open-file semantics - O_TRUNC keeps the inode, every writer keeps writing
+        at its own offsets into the file it opened even after that file was renamed - and return one
+        log [(path, FState|None), ...] of the successive visible states."""
+        K = self.K
+        names = {}                 # path -> file object {obj, slots}
+        for pth, st in base_files.items():
+            names[pth] = {"obj": st.obj, "slots": [i < st.written for i in range(max(st.total, 1))] if st.total
+                          else [], "total": st.total}
+        handles = {}
+        dead = set()
+        pos = [0] * len(oplists)
+        log = []
+
+        def state(fo):
+            if fo["total"] == 0:
+                return FState(None, 0, 0)
+            slots = fo["slots"]
+            n = sum(1 for x in slots if x)
+            holes = any((not slots[i]) and any(slots[i + 1:]) for i in range(len(slots)))
+            return FState(fo["obj"], n, fo["total"], holes)
+
+        def path_of(fo):
+            for pth, f in names.items():
+                if f is fo:
+                    return pth
+            return None
+
+        for w in order:
+            if w in dead or pos[w] >= len(oplists[w]):
+                continue
+            op = oplists[w][pos[w]]
+            pos[w] += 1
+            if op[0] == "create":
+                pth = op[1]
+                fo = names.get(pth)
+                if fo is None:
+                    fo = {"obj": None, "slots": [], "total": 0}
+                    names[pth] = fo
+                else:
+                    fo["obj"], fo["slots"], fo["total"] = None, [], 0      # truncated in place
+                handles[w] = fo
+                log.append((pth, state(fo)))
+            elif op[0] == "chunk":
+                fo = handles.get(w)
+                if fo is None:
+                    dead.add(w)
+                    continue
+                if fo["total"] == 0:
+                    fo["total"] = K
+                    fo["slots"] = [False] * K
+                fo["obj"] = op[2]
+                fo["slots"][op[3] - 1] = True
+                pth = path_of(fo)
+                if pth is not None:
+                    log.append((pth, state(fo)))
+            elif op[0] == "replace":
+                a, b = op[1], op[2]
+                if a not in names:
+                    dead.add(w)              # FileNotFoundError in that grower
+                    continue
+                fo = names.pop(a)
+                names[b] = fo
+                log.append((a, None))
+                log.append((b, state(fo)))
+        return log
+
     def begin_timeline(self, base_files, logs, deltas):
         """base_files: state before any writer; logs: list of per-writer [(path, FState|None)...]
         (writers of distinct files); deltas: pool of symbolic ints"""
@@ -305,10 +398,19 @@ class Handle:
         return self
 
     def __exit__(self, *a):
+        self.close()
         return False
 
     def close(self):
-        pass
+        """flush what pickle.dump buffered (buffered mode): the chunk steps happen now"""
+        pending = getattr(self, "pending", None)
+        if pending is not None:
+            self.pending = None
+            obj = pending[0]
+            if _is_tracing():
+                with _NoTracing():
+                    return self.fs.write_chunks(self.p, obj)
+            return self.fs.write_chunks(self.p, obj)
 
 
 class StepOpen:
@@ -336,6 +438,9 @@ class StepPickle:
 
     def dump(self, obj, h, *a, **k):
         obj = fakefs.snap(obj)
+        if self.fs.buffered:
+            h.pending = (obj,)
+            return None
         if _is_tracing():
             with _NoTracing():
                 return self.fs.write_chunks(h.p, obj)
